@@ -15,7 +15,9 @@ RULE = ('enumerated: every cycle length 1..6 with every entry point, with an '
         'through a range (SUM over a run containing / feeding the cycle), '
         'self references; DAGs rich in sharing: the same cell twice in one '
         'formula, diamonds of width 2-4 and depth 1-6, a cell reached both '
-        'directly and through a range; the same shapes with pass-through '
+        'directly and through a range; the basic cycles and diamonds again '
+        'on the workbook path with every (every second) reference spelled '
+        'as a defined name of the cell / range; the same shapes with pass-through '
         'formulas =IF(x=y,x,y) over BLANK or constant leaves (every cell of '
         'the chain is blank); failure-depth family: chains of '
         'length 2,4,8,16,32 whose last cell fails (unknown function; a '
@@ -78,6 +80,10 @@ def enumerate_cases(tier, shard=0, nshards=1):
                # operator (=XE9+A2+1 with XE9 = 1/0): the references on the
                # right still belong to the formula
                [dict(c, mode='errleft') for c in out])
+    # ... and on the WORKBOOK path with every reference (every second one:
+    # 'named2') going through a DEFINED NAME of the cell / of the range
+    out.extend([dict(c, mode=m_) for c in out
+                if 'mode' not in c for m_ in ('named', 'named2')])
     # long cycles / long prefixes (well inside Python's recursion limit)
     for length, prefix in ((10, 0), (26, 3), (27, 0), (40, 10), (1, 60),
                            (60, 0), (2, 50), (102, 0), (150, 20), (200, 0)):
@@ -104,6 +110,8 @@ def enumerate_cases(tier, shard=0, nshards=1):
             cells['H9'] = [['ref', nm(0, w)] for w in range(width)]
             out.append({'k': 'graph', 'cells': cells, 'consts': consts,
                         'eval': 'H9', 'n': len(cells)})
+            out.append({'k': 'graph', 'cells': cells, 'consts': consts,
+                        'eval': 'H9', 'n': len(cells), 'mode': 'named'})
     out.append({'k': 'graph', 'cells': {'B1': [['ref', 'A1'], ['ref', 'A1'],
                                                ['ref', 'A1']]},
                 'consts': {'A1': 5}, 'eval': 'B1', 'n': 1})
@@ -219,8 +227,11 @@ def _build(d):
         consts.pop(NAMES[0], None)
     case = {'k': 'graph', 'cells': cells, 'consts': consts,
             'eval': d.choice(sorted(cells)), 'n': n}
-    if d.pick(4) == 0:
+    k = d.pick(6)
+    if k == 0:
         case['mode'] = 'pass'
+    elif k == 1:
+        case['mode'] = d.choice(['named', 'named2'])
     return case
 
 
@@ -479,6 +490,50 @@ def _guarded(case, res):
     return res
 
 
+def _compile_named(d, every_second):
+    """the same single-sheet model as a workbook in which the references
+    are spelled as defined names (nm_A3 -> Sheet1!$A$3, rg_A1_A3 ->
+    Sheet1!$A$1:$A$3)"""
+    import os
+    import re
+    import tempfile
+    from vf.gen import xlsxmin
+    xl = lib.lib()
+    names = {}
+    count = [0]
+
+    def sub(mo):
+        count[0] += 1
+        if every_second and count[0] % 2:
+            return mo.group(0)
+        a, b = mo.group(1), mo.group(3)
+        if b:
+            n = 'rg_%s_%s' % (a, b)
+            names[n] = 'Sheet1!$%s$%s:$%s$%s' % (a[0], a[1:], b[0], b[1:])
+        else:
+            n = 'nm_%s' % a
+            names[n] = 'Sheet1!$%s$%s' % (a[0], a[1:])
+        return n
+    cells = {}
+    for a, v in d.items():
+        a1 = a.split('!')[1]
+        if isinstance(v, str) and v.startswith('='):
+            f = re.sub(r'(?<![A-Za-z_!])([A-H]\d+)(:([A-H]\d+))?(?![\d(])',
+                       sub, v[1:])
+            cells[a1] = {'kind': 'f', 'f': f, 'cached': None}
+        else:
+            cells[a1] = {'kind': 'n', 'v': v}
+    fd, fn = tempfile.mkstemp(prefix='vf_c06_', suffix='.xlsx')
+    os.close(fd)
+    try:
+        xlsxmin.write(fn, {'sheets': [{'name': 'Sheet1', 'cells': cells}],
+                           'names': [{'name': n, 'ref': r}
+                                     for n, r in sorted(names.items())]})
+        return xl.ModelCompiler().read_and_parse_archive(fn)
+    finally:
+        os.remove(fn)
+
+
 def judge(case):
     res = Result()
     if case['k'] == 'guarded':
@@ -522,7 +577,10 @@ def judge(case):
         res.labels = ('pass-through', 'cyclic-not-judged')
         return res
     try:
-        m = lib.compile_dict(d)
+        if case.get('mode') in ('named', 'named2'):
+            m = _compile_named(d, case['mode'] == 'named2')
+        else:
+            m = lib.compile_dict(d)
         ev = xl.Evaluator(m)
     except Exception as err:  # noqa: BLE001
         t = exc_tag(err)
@@ -537,6 +595,8 @@ def judge(case):
     has_range = any(r[0] == 'range' for refs in cells.values() for r in refs)
     res.labels = ('cyclic' if cyclic else 'acyclic',
                   'range' if has_range else 'refs-only')
+    if case.get('mode') in ('named', 'named2'):
+        res.labels += ('through-defined-names',)
     if cyclic:
         res.nontrivial = True
         kind = 'through-range' if has_range else 'plain'
